@@ -210,9 +210,41 @@ pub trait Num: Clone {
     /// elementary function by name (value and, for duals, chain rule)
     fn func(&self, name: &str) -> Self;
     fn defined(&self) -> bool;
+    /// is the value an integer (decided exactly where the type is exact)
+    fn is_int(&self) -> bool {
+        self.re().fract() == 0.0
+    }
+    /// noise injection for the conditioning estimate (see `sensitivity`): identity unless a noise
+    /// pattern is active
+    fn perturb(self) -> Self {
+        self
+    }
 }
 
+thread_local! {
+    /// 0 = off; otherwise the id of the sign pattern of the injected relative noise
+    static NOISE_PATTERN: std::cell::Cell<u64> = const { std::cell::Cell::new(0) };
+    static NOISE_NODE: std::cell::Cell<u64> = const { std::cell::Cell::new(0) };
+}
+pub const NOISE: f64 = 1e-11;
+
 impl Num for f64 {
+    fn perturb(self) -> Self {
+        let pat = NOISE_PATTERN.with(|p| p.get());
+        if pat == 0 {
+            return self;
+        }
+        let k = NOISE_NODE.with(|n| {
+            let k = n.get();
+            n.set(k + 1);
+            k
+        });
+        if crate::tape::mix(pat, k) & 1 == 0 {
+            self * (1.0 + NOISE)
+        } else {
+            self * (1.0 - NOISE)
+        }
+    }
     fn cst(x: f64, _lit: &str) -> Self {
         x
     }
@@ -274,6 +306,9 @@ impl Num for f64 {
 }
 
 impl Num for Q {
+    fn is_int(&self) -> bool {
+        self.0.as_ref().map(|r| r.is_integer()).unwrap_or(false)
+    }
     fn cst(_x: f64, lit: &str) -> Self {
         lit.parse::<Q>().unwrap_or(Q::undef())
     }
@@ -318,6 +353,12 @@ impl<T: Num> Dual<T> {
     }
 }
 impl<T: Num> Num for Dual<T> {
+    fn is_int(&self) -> bool {
+        self.v.is_int()
+    }
+    fn perturb(self) -> Self {
+        Dual { v: self.v.perturb(), d: self.d.perturb() }
+    }
     fn cst(x: f64, lit: &str) -> Self {
         Dual { v: T::cst(x, lit), d: T::cst(0.0, "0") }
     }
@@ -502,7 +543,7 @@ pub fn eval_ct<T: Num + Bounded>(t: &CT, vars: &[T], ok: &mut bool) -> T {
                     if !(e.abs() <= 8.0) {
                         *ok = false;
                     }
-                    if !b_has_var && e.fract() == 0.0 && e.abs() <= 8.0 {
+                    if !b_has_var && y.is_int() && e.abs() <= 8.0 {
                         if e < 1.0 && !(x.re().abs() >= MARGIN) {
                             // x^0, x^negative at 0 are singular or formula-sensitive
                             *ok = false;
@@ -544,7 +585,7 @@ pub fn eval_ct<T: Num + Bounded>(t: &CT, vars: &[T], ok: &mut bool) -> T {
     if !r.defined() || !(r.max_abs() <= BOUND) {
         *ok = false;
     }
-    r
+    r.perturb()
 }
 
 pub fn close(a: f64, b: f64, tol: f64) -> bool {
@@ -576,6 +617,26 @@ pub fn sensitivity(f: &dyn Fn(&[f64]) -> Option<f64>, point: &[f64]) -> Option<f
             let v = f(&p)?;
             s = s.max((v - base).abs());
         }
+    }
+    // rounding *inside* the evaluation: relative noise of 1e-11 (sign patterns) on the result of
+    // every node of the reference evaluation; this is what tells tan(exp(x/0.25)^(3/x)) - constant
+    // in x, but the tangent of 162754.79 - from a well-conditioned expression. Has an effect only
+    // if `f` evaluates through `eval_ct`.
+    struct NoiseOff;
+    impl Drop for NoiseOff {
+        fn drop(&mut self) {
+            NOISE_PATTERN.with(|p| p.set(0));
+        }
+    }
+    for pattern in 1..=6u64 {
+        let v = {
+            let _off = NoiseOff;
+            NOISE_PATTERN.with(|p| p.set(pattern));
+            NOISE_NODE.with(|n| n.set(0));
+            f(point)
+        };
+        let v = v?;
+        s = s.max((v - base).abs());
     }
     if s.is_finite() {
         Some(s)
